@@ -271,6 +271,38 @@ func c18Run(c *core.Ctx, idx int) {
 		texts = append([]string{"\ufeff! saved with a byte order mark"}, texts...)
 		c.Event("lists_starting_with_a_byte_order_mark", 1)
 	}
+	if c.Rng.Intn(3) == 0 {
+		// Rules of the other kind about the same names that leave no basic
+		// rule behind: a rule cancelled by its $badfilter twin, a lone
+		// $badfilter rule, a rule with a browser-only modifier.  The hosts
+		// entries are returned all the same.
+		var names []string
+		for n := range listed {
+			names = append(names, n)
+		}
+		slices.Sort(names)
+		for i, k := 0, 1+c.Rng.Intn(3); i < k && len(names) > 0; i++ {
+			n := names[c.Rng.Intn(len(names))]
+			var extra []string
+			switch c.Rng.Intn(5) {
+			case 0:
+				extra = []string{"||" + n + "^", "||" + n + "^$badfilter"}
+			case 1:
+				extra = []string{"||" + n + "^$badfilter"}
+			case 2:
+				extra = []string{"@@||" + n + "^$important,badfilter", "@@||" + n + "^$important"}
+			case 3:
+				extra = []string{"||" + n + "^$script,third-party"}
+			default:
+				extra = []string{"|" + n + "^$dnstype=AAAA,badfilter", "|" + n + "^$dnstype=AAAA"}
+			}
+			for _, e := range extra {
+				at := c.Rng.Intn(len(texts) + 1)
+				texts = append(texts[:at], append([]string{e}, texts[at:]...)...)
+			}
+		}
+		c.Event("hosts_lists_with_cancelled_network_rules_about_the_same_names", 1)
+	}
 	storage := util.StorageSplit(c.Rng, texts)
 	if nLines > 12 {
 		if dir, derr := os.MkdirTemp(filepath.Join(c.Env.VerifDir, ".work"), "c18f."); derr == nil {
@@ -354,7 +386,7 @@ func init() {
 	core.Register(&core.Prop{
 		ID:    "C18",
 		Level: "exploration",
-		Rule: "per case 12 lines of the grammar IP (sp|tab)+ name ((sp|tab)+ name)* [ws* '#' any] | name [ws* '#' any] with IPv4/IPv6/IPv4-mapped addresses, 1..8 names, comments with and without a preceding blank (a cosmetic marker only after a blank), trailing blanks, " +
+		Rule: "(DNS engine path: one list in three also holds network rules about the listed names that leave no basic rule - cancelled pairs, lone $badfilter rules, browser-only rules) per case 12 lines of the grammar IP (sp|tab)+ name ((sp|tab)+ name)* [ws* '#' any] | name [ws* '#' any] with IPv4/IPv6/IPv4-mapped addresses, 1..8 names, comments with and without a preceding blank (a cosmetic marker only after a blank), trailing blanks, " +
 			"each through NewRule and NewHostRule (names, address, Match on listed and perturbed names) and all 12 together through DNSEngine.Match (right address family, perturbed names not returned); non-trivial = line with a comment; distinct by line text",
 		Assumptions: []string{
 			"when no blank precedes '#', the comment does not start a cosmetic marker (such a line is element-hiding syntax by design)",
